@@ -738,6 +738,18 @@ def translate_function(ctx, src, name, mode, lean_name=None):
     p.eat(")")
     body = p.block()
     g = Gen(ctx, name, ret, params, mode)
+    # Unknown ALL-CAPS identifiers that are #define'd integer constants of the same file are
+    # resolved automatically (a refactoring that names a literal must not break the tie).
+    auto = ""
+    for k, v in toks:
+        if k == "id" and re.match(r"^[A-Z][A-Z0-9_]+$", v) and v not in ctx.consts and v not in ctx.enum_of_ctor \
+                and v not in ctx.structs and v not in ("UINT32_MAX", "UINT16_MAX", "UINT8_MAX", "NULL"):
+            try:
+                val = const_expr(ctx, parse_define(src, v))
+            except (SyntaxError, ValueError, NameError, TypeError):
+                continue
+            ctx.consts[v] = ("uint32_t", val)
+            auto += "def %s : Nat := %d\n\n" % (v, val)
     # void function: which pointer params are assigned?
     assigned = g.assigned(body)
     g.outs = [o for o in g.outs if o in assigned]
@@ -749,7 +761,7 @@ def translate_function(ctx, src, name, mode, lean_name=None):
         "def %s : %s :=\n" % (lname, g.ret_type())
     sha = hashlib.sha256(text.encode()).hexdigest()[:16]
     line = src[:loc[0]].count("\n") + 1
-    return sig + body_txt, sha, line, text
+    return auto + sig + body_txt, sha, line, text
 
 
 def parse_structs(ctx, src, wanted):
